@@ -632,6 +632,31 @@ P("size_frame_elemwise", lambda t: (t.df[["u", "f"]] * 2).size)
 P("len_concat_parts", lambda t: t.dd.concat([t.df, t.df3]).shape[0])
 
 
+# further interplay programs (second seeding round)
+P("proj_shared_scalar_and_list", lambda t: (lambda x: x[x["b"] > 3][["b"]])(t.df.fillna({"b": 0.0})))
+P("proj_shared_scalar_and_list_shift", lambda t: (lambda x: x[x["u"] > 3][["u"]])(t.df.assign(u=t.df.u.shift(1))), tags={"window"})
+P("intlabels_reset_index_select_index", lambda t: t.df[["a", "u"]].rename(columns={"u": 0, "a": 1}).set_index(0)[1].reset_index()[0] if t.lazy else t.df[["a", "u"]].rename(columns={"u": 0, "a": 1}).set_index(0).sort_index(kind="stable")[1].reset_index()[0], index_free=True, tags={"sort"})
+P("intlabels_reset_index_select_value", lambda t: t.df[["a", "u"]].rename(columns={"u": 0, "a": 1}).set_index(0)[1].reset_index()[1] if t.lazy else t.df[["a", "u"]].rename(columns={"u": 0, "a": 1}).set_index(0).sort_index(kind="stable")[1].reset_index()[1], index_free=True, tags={"sort"})
+P("assign_scalar_shared", lambda t: t.dd.concat([t.df.assign(flag=1), t.df]))
+P("assign_scalar_two_reductions", lambda t: t.df.assign(flag=1).u.sum() + t.df.u.max())
+P("random_split_rs_instance", lambda t: t.df.random_split([0.5, 0.5], random_state=np.random.RandomState(5))[1] if t.lazy else t.df, dask_only=True, only={"C05"})  # a RandomState INSTANCE is consumed when an expression is (re)built: only repeatability of one collection is defined
+P("loc_list_unsorted", lambda t: t.df.loc[[5, 1, 9]], needs_known=True, needs_range=True, order_free=True)
+P("loc_list_unsorted_same_partition", lambda t: t.df.loc[[3, 1, 2, 10]], needs_known=True, needs_range=True, order_free=True)
+P("loc_slice_no_columns", lambda t: t.df.loc[2:9, []], needs_known=True, needs_range=True)
+P("loc_slice_one_column_list", lambda t: t.df.loc[2:9, ["u"]], needs_known=True, needs_range=True)
+P("tail_tail_outer_larger", lambda t: t.df.tail(2, compute=False).tail(5, compute=False) if t.lazy else t.df.tail(2).tail(5), tags={"head"}, dask_only=True)
+P("tail_elemwise_tail_outer_larger", lambda t: (t.df.tail(2, compute=False).u + 1).tail(4, compute=False) if t.lazy else (t.df.tail(2).u + 1).tail(4), tags={"head"}, dask_only=True)
+P("head_head_outer_larger", lambda t: t.df.head(2, compute=False).head(5, compute=False) if t.lazy else t.df.head(2).head(5), tags={"head"}, dask_only=True)
+P("merge_left_index_right_on_k", lambda t: t.df[["u", "f"]].set_index("u").merge(t.df2[["u", "w"]].assign(k=t.df2.u)[["k", "w"]], left_index=True, right_on="k", how="inner") if t.lazy else t.df[["u", "f"]].set_index("u").merge(t.df2[["u", "w"]].assign(k=t.df2.u)[["k", "w"]], left_index=True, right_on="k", how="inner"), order_free=True, index_free=True, tags={"sort"})
+P("merge_left_on_right_index_outer", lambda t: t.df[["u", "f"]].merge(t.df2[["u", "w"]].set_index("u"), left_on="u", right_index=True, how="outer"), order_free=True, index_free=True, tags={"sort"})
+P("merge_right_bcast_left_diff_keys", lambda t: t.df2[["a", "w"]].rename(columns={"a": "ka"}).merge(t.df[["a", "u"]], left_on="ka", right_on="a", how="right", broadcast=True) if t.lazy else t.df2[["a", "w"]].rename(columns={"a": "ka"}).merge(t.df[["a", "u"]], left_on="ka", right_on="a", how="right"), order_free=True, index_free=True)
+P("value_counts_normalize_nulls", lambda t: t.df.b.value_counts(normalize=True), order_free=True)
+P("value_counts_normalize_keepna", lambda t: t.df.b.value_counts(normalize=True, dropna=False), order_free=True)
+P("cumsum_series_nulls", lambda t: t.df.b.cumsum())
+P("cummax_series_nulls", lambda t: t.df.b.cummax())
+P("cumprod_series_nulls_noskip", lambda t: t.df.b.cumsum(skipna=False))
+
+
 def program_names(tags_exclude=()):
     return [n for n, p in PROGRAMS.items() if not (p.tags & set(tags_exclude))]
 
